@@ -597,9 +597,10 @@ class vm_core {
             }
         }
         if (!found) {
-            shadow_error(shared ? "unlock_shared by a thread that does not hold the mutex shared" :
-                                  "unlock by a thread that does not own the mutex");
-            return;
+            // unlocking a mutex the thread does not hold is undefined for the real primitive: report at once, never perform it
+            raise_violation("oracle:shadow_lock_state",
+                            shared ? "[\"unlock_shared by a thread that does not hold the mutex shared\"]" :
+                                     "[\"unlock by a thread that does not own the mutex (foreign or double unlock)\"]");
         }
         rt.global_held.fetch_sub(1, std::memory_order_relaxed);
         if (shared) sh_shared_.fetch_sub(1, std::memory_order_relaxed);
